@@ -26,7 +26,7 @@ ASSUMPTIONS = [
 ]
 
 DIRS = ["ppt", "slides", "slidesX", "a.b", "_rels", "UP"]
-LEAVES = ["slide1.xml", "slide21.xml", "a.b.c", "noext", "IMAGE7.PNG", "[x].xml", "slide.xml"]
+LEAVES = ["slide1.xml", "slide21.xml", "a.b.c", "noext", "IMAGE7.PNG", "[x].xml", "slide.xml", ".rels"]
 
 
 # further leaf names for the accessor table only (index 0, zero-padded and multi-digit indices, index without extension)
@@ -57,7 +57,7 @@ def ref_filename(p):
 def ref_ext(p):
     fn = ref_filename(p)
     i = fn.rfind(".")
-    return fn[i + 1:] if i > 0 else ""
+    return fn[i + 1:] if i >= 0 else ""  # (also for a leaf that starts with the period: '/_rels/.rels' is declared by Default Extension="rels")
 
 
 def ref_idx(p):
